@@ -5,6 +5,7 @@ from . import satlayer
 def run(ctx):
     satlayer.rule_header(ctx)
     satlayer.rule_clause_store(ctx)
+    satlayer.rule_assumptions_transient(ctx)  # the store and its counter are left alone by a solve call: the next header stays exact
     satlayer.rule_child_pipes(ctx)
     satlayer.rule_reply_is_stdout(ctx)
     satlayer.rule_reply_parser(ctx)
